@@ -431,6 +431,14 @@ func runDial(t *testing.T, ksc KScenario, res *KResult) {
 		checkClientHello(w, nodes, sc, di, cp, report, res)
 		time.Sleep(50 * time.Millisecond)
 	}
+	if d := sc.Cfg.Derive; d != nil && d.tokBacking != nil {
+		for i := d.tokPrefixLen; i < len(d.tokBacking); i++ {
+			if d.tokBacking[i] != 0xa5 {
+				report("C10", "dialing wrote into the caller's buffer behind the spec's ClientTokenPrefix", "byte %d of %d (prefix %d bytes) after %d dials", i, len(d.tokBacking), d.tokPrefixLen, len(caps))
+				break
+			}
+		}
+	}
 	// cross-dial clauses
 	if spec != nil {
 		checkAcrossDials(sc, caps, report, res)
